@@ -397,15 +397,16 @@ def _fold_cal_gt(ctx, eng: str) -> T.Optional[T.List[str]]:
     gt = prog.function(f"{eng}._is_cal_gt")
     klass = "V2CalendarInfo" if eng == "v2version" else "V1CalendarInfo"
     fields = list(prog.klass(f"version.{klass}").fields)
-    body = [st for st in gt.node.body if not (isinstance(st, ast.Expr) and isinstance(st.value, ast.Constant))]
-    if not body or not isinstance(body[-1], ast.Return) or body[-1].value is None or len(gt.params) < 2:
+    if len(gt.params) < 2:
         return None
     vmod = types.SimpleNamespace(**{klass: types.SimpleNamespace(_fields=tuple(fields))})
 
     def run(lv: T.Dict[str, T.Any], rv: T.Dict[str, T.Any]) -> bool:
         env: T.Dict[str, T.Any] = {gt.params[0]: types.SimpleNamespace(**lv), gt.params[1]: types.SimpleNamespace(**rv), "version": vmod}
-        prog._propagate(gt.module, body[:-1], env, gt.fq)
-        return bool(prog.fold(gt.module, body[-1].value, env))
+        ret, _ys = prog.run_body(gt, env)
+        if not isinstance(ret, bool):
+            raise CannotFold("_is_cal_gt does not return a bool")
+        return ret
 
     def spec(lv: T.Dict[str, T.Any], rv: T.Dict[str, T.Any]) -> bool:
         both = [f for f in fields if lv[f] is not None and rv[f] is not None]
